@@ -56,7 +56,10 @@ TRunCleanup ==
        ELSE RunCleanup(IF st # {} THEN CHOOSE c \in st : TRUE ELSE CHOOSE c \in cs : TRUE)
 
 TraceInit == Init /\ l = 1
-TraceNext == TReset \/ TGhost \/ TSync \/ TLookup \/ TRunCleanup
+\* the real database asked its storage for another kind of sync (full / partial) than its own
+\* sync times -- as written to, and restored from, the file cache -- call for
+TDiverged == Is("Diverged") /\ Consume /\ UNCHANGED vars
+TraceNext == TReset \/ TGhost \/ TSync \/ TLookup \/ TRunCleanup \/ TDiverged
 TraceSpec == TraceInit /\ [][TraceNext]_tvars
 
 -----------------------------------------------------------------------------
@@ -77,7 +80,8 @@ ProbesCorrect ==
     /\ \A h \in Human, p \in Prof : ResEq(O.phuman[h \o "|" \o p], OwnerHuman(h, p))
 
 \* "with every profile and device setting preserved"
-RestorePreserves == l > 1 /\ O.ev = "Restart" => O.restore = "ok"
+RestorePreserves == /\ (l > 1 /\ O.ev = "Restart" => O.restore = "ok")
+                    /\ (l > 1 => O.ev # "Diverged")       \* ... the sync times included
 
 \* binding of the ghost: the harness's backend is the spec's backend
 GhostAgrees ==
